@@ -135,6 +135,11 @@ func runEnv(b envBehaviour, rnd *rand.Rand) ([]Event, string) {
 		}
 		return blocks[name]
 	}
+	type redo struct {
+		h int64
+		f func()
+	}
+	var delivered []redo
 	for _, s := range b.Steps {
 		switch s.Op {
 		case "height":
@@ -169,13 +174,18 @@ func runEnv(b envBehaviour, rnd *rand.Rand) ([]Event, string) {
 			if blk == nil {
 				continue
 			}
-			cl.RecvEvent(e, from, "proposal", Event{"r": s.R, "val": blk.Name, "pol": s.Pol, "h": cl.Height})
-			_ = e.Inject(from, consensus.ProtoProposal, cl.ProposalBytes(from, blk, s.R, s.Pol))
-			if blk.PartMsg != nil {
-				for _, pm := range blk.PartMsg(s.R) {
-					_ = e.Inject(from, consensus.ProtoBlockPart, pm)
+			s, h := s, cl.Height
+			deliver := func() {
+				cl.RecvEvent(e, from, "proposal", Event{"r": s.R, "val": blk.Name, "pol": s.Pol, "h": h})
+				_ = e.Inject(from, consensus.ProtoProposal, cl.ProposalBytes(from, blk, s.R, s.Pol))
+				if blk.PartMsg != nil {
+					for _, pm := range blk.PartMsg(s.R) {
+						_ = e.Inject(from, consensus.ProtoBlockPart, pm)
+					}
 				}
 			}
+			deliver()
+			delivered = append(delivered, redo{h, deliver})
 		case "votes":
 			var from []int
 			_ = json.Unmarshal(s.From, &from)
@@ -190,8 +200,22 @@ func runEnv(b envBehaviour, rnd *rand.Rand) ([]Event, string) {
 				if blk != nil {
 					name = blk.Name
 				}
-				cl.RecvEvent(e, f, "vote", Event{"type": s.Type, "r": s.R, "val": name, "h": cl.Height})
-				_ = e.Inject(f, consensus.ProtoVote, cl.VoteBytes(f, vtOf(s.Type), s.R, blk, 1000+int64(s.R)))
+				s, f, h := s, f, cl.Height
+				bs := cl.VoteBytes(f, vtOf(s.Type), s.R, blk, 1000+int64(s.R))
+				deliver := func() {
+					cl.RecvEvent(e, f, "vote", Event{"type": s.Type, "r": s.R, "val": name, "h": h})
+					_ = e.Inject(f, consensus.ProtoVote, bs)
+				}
+				deliver()
+				delivered = append(delivered, redo{h, deliver})
+			}
+		case "redeliver":
+			// the peers gossip again what they sent at this height (an engine that lost its memory in a restart is
+			// stimulated again with the same, identical messages)
+			for _, d := range delivered {
+				if d.h == cl.Height {
+					d.f()
+				}
 			}
 		case "block":
 			// fast-sync result: the block with precommits of some of the other validators
